@@ -30,9 +30,9 @@ for pid in props:
 m = {
     'version': 1,
     'setup_cmd': './check --setup',
-    'hooks': {'guard': 'DMLC_CORE_VERIF', 'enable': 'harness translation units are compiled with -DDMLC_CORE_VERIF=1 (tools/build.py)',
+    'hooks': {'guard': 'DMLC_CORE_VERIF', 'enable': 'harness translation units are compiled with -DDMLC_CORE_VERIF=1 (tools/build.py); harnesses of C03-C06, C10-C13 add -DDMLC_CORE_VERIF_BUFFER_WORDS=<n> (hook H1: small chunk buffers)',
               'baseline_off_cmd': 'cd /repo && cmake -G Ninja -B _build >/dev/null && cmake --build _build && ctest --test-dir _build -j8 --timeout 900',
-              'source_commits': [], 'add_only': True},
+              'source_commits': ['5a2dcd1 verif hook H1: DMLC_CORE_VERIF_BUFFER_WORDS overrides InputSplitBase::kBufferSize (guarded by DMLC_CORE_VERIF)'], 'add_only': True},
     'engines': [
         {'name': 'lean-model', 'path': 'lean/', 'serves_properties': sorted(PROPS), 'kind_free_text': 'Lean 4 model + property theorems (lake project DmlcModel), axiom audit on every run'},
         {'name': 'translate', 'path': 'tools/translate.py', 'serves_properties': sorted(PROPS), 'kind_free_text': 'source -> Lean translator for constants, bit kernels, predicates (Gen/*.lean regenerated every run)'},
